@@ -7,6 +7,10 @@ Suites
              to the model as `Fire u` steps (the model accepts a Fire only if it is a legal choice).
   periodic : the real PeriodicTask class on a minimal scheduler that wakes up late (time() > deadline inside _run),
              cancel at/around deadlines.
+  timer    : real timer devices of a real mode (6 configurations), driven by control events on the 125 ms grid;
+             model coq/C13/Timer.v; expiries of the system timer / pause delay observed and validated.
+  modestop : Mode.delay through a real mode's stop (delays added before stop, in mode_<m>_stopping/_stopped handlers,
+             during a held stopping queue); oracle only.
 """
 import functools
 import math
@@ -20,7 +24,12 @@ RULE = ("delay: 1-6 external steps of 1-4 DelayManager ops (add/add_if_doesnt_ex
         "of further ops re-entrantly (re-add own name, remove/run_now others, self-rescheduling chains); external steps "
         "are placed on deadlines half of the time; non-trivial = at least one callback ran and at least one handle was "
         "cancelled or one op executed inside a callback.  periodic: interval/t0/cancel time incl. cancel exactly on a "
-        "deadline (both orders) and a scheduler that wakes up late; non-trivial = at least 2 ticks")
+        "deadline (both orders) and a scheduler that wakes up late; non-trivial = at least 2 ticks.  timer: one of 6 timer "
+        "configurations (up/down, end/no end, max, restart_on_complete), 2-10 control events (start/stop/pause with and "
+        "without duration/add/subtract/jump/reset/restart/interval changes) 0-1500 ms apart on the 125 ms grid, so that "
+        "commands land on tick instants and pause expiries; non-trivial = at least one tick and 3 commands.  modestop: "
+        "0-3 delays before stop, 0-2 in each of the stopping/stopped handlers, optional held stopping queue with delays "
+        "added in the window, optional restart of the mode; non-trivial = at least one delay")
 TRUSTED_BASE = [
     "Coq 8.16.1 kernel (coqc), vm_compute for evaluating the model in the correspondence run and for the refutation witness; no native_compute",
     "axioms: none (every Print Assumptions is 'Closed under the global context')",
@@ -34,7 +43,11 @@ TRUSTED_BASE = [
 ASSUMPTIONS = [
     "durations are non-negative integers of milliseconds; instants are exact (1/8 s grid) or compared after rounding to microseconds",
     "the harness callbacks do not raise; nesting depth of run_now inside callbacks is cut at 6 (harness and model alike)",
-    "the timer device (mpf/devices/timer.py) is NOT covered (see coq/C13/NOTES.md); Mode.stop -> delay.clear() is read, not tied",
+    "timer device: no player variables / placeholders in values, tick intervals are multiples of 1/32 s, restart_on_complete "
+    "only with a start value that is not final (cfg_ok; otherwise the code recurses forever); ticks_remaining is not compared",
+    "timer suite: which of the two pause() variants the tree contains is decided by a behavioural probe at worker start "
+    "(c_legacy in Timer.v); timer_quiet_after_pause_or_stop holds for the patched variant only",
+    "Mode.stop -> delay.clear() is exercised on a real mode and checked by oracle; it is not part of the Coq model",
 ]
 
 NAMES = ["a", "b", "c"]
@@ -582,11 +595,529 @@ LEVEL_TEXT = ("Machine-checked proof (Coq) over an executable model of DelayMana
               "from inside delay callbacks, and every legal firing order, each callback run is justified by exactly one "
               "add (same callback, same kwargs, at exactly add time + ms unless run by run_now), runs at most once, never "
               "after its handle was cancelled; every added delay whose deadline has passed was run or cancelled; check() "
-              "equals the existence of a live handle; PeriodicTask ticks at t0+k*interval exactly and never after cancel. "
+              "equals the existence of a live handle; PeriodicTask ticks at t0+k*interval exactly and never after cancel; "
+              "timer device: tick events only from a running timer, nothing happens by itself after stop / pause without "
+              "duration, complete exactly at the end value, tick instants exact. "
               "The model is tied to the working tree by running both on the same generated histories on every run.")
 LEVEL_NOTE = ("Trusted: Coq kernel + vm_compute; no axioms. Model hand-written; correspondence validates it against the "
               "working tree (real DelayManager/PeriodicTask on mpf's TimeTravelLoop); asyncio's handle semantics "
               "(a cancelled handle never runs, due handles run no earlier than their deadline) are modelled as the "
-              "acceptance conditions of Fire/Ext steps and validated on every run. The timer device is not covered.")
+              "acceptance conditions of Fire/Ext steps and validated on every run. Timer device: model Timer.v tied the same "
+              "way to real timers of a real mode; mode-owned delays: oracle on a real mode's stop.")
 TECHNIQUE = "Coq proof over hand-written executable model + differential correspondence (vm_compute) + direct spec oracle"
 DESIGN_REF = "DESIGN.md section 3, C13"
+
+
+# ================================================================================================
+# timer device (mpf/devices/timer.py) — real timers of a real mode, driven by control events on the 125 ms grid
+TIMERS = [   # name, start, end, max, direction, tick interval ms, restart_on_complete
+    ("t0", 0, 5, None, "up", 500, False),
+    ("t1", 5, None, None, "down", 250, False),
+    ("t2", 0, 3, None, "up", 500, True),
+    ("t3", 3, 1, None, "down", 250, True),
+    ("t4", 0, None, 4, "up", 250, False),
+    ("t5", 2, 6, 8, "up", 125, False),
+]
+# control events; the value-less actions come first (Timer._setup_control_events leaks the previous entry's kwargs
+# into start/stop/reset/restart handlers: reset after a value action raises TypeError — recorded in NOTES.md)
+T_ACTIONS = [("start", "start", None), ("stop", "stop", None), ("reset", "reset", None), ("restart", "restart", None),
+             ("pause", "pause", None), ("pause500", "pause", 0.5), ("pause1000", "pause", 1), ("pause250", "pause", 0.25),
+             ("add1", "add", 1), ("add2", "add", 2), ("sub1", "subtract", 1), ("sub2", "subtract", 2),
+             ("jump0", "jump", 0), ("jump3", "jump", 3), ("jump5", "jump", 5), ("jump20", "jump", 20), ("jumpm1", "jump", -1),
+             ("half", "change_tick_interval", 0.5), ("double", "change_tick_interval", 2),
+             ("set250", "set_tick_interval", 0.25), ("set500", "set_tick_interval", 0.5), ("set1000", "set_tick_interval", 1),
+             ("resetival", "reset_tick_interval", None)]
+T_KINDS = ["started", "stopped", "paused", "complete", "tick", "time_added", "time_subtracted"]
+_TRIG = {}
+
+
+def _timer_config():
+    timers = {}
+    for name, start, end, mx, direction, ival, roc in TIMERS:
+        ce = []
+        for ev, action, value in T_ACTIONS:
+            e = {"event": "%s_%s" % (name, ev), "action": action}
+            if value is not None:
+                e["value"] = value
+            ce.append(e)
+        t = {"start_value": start, "direction": direction, "tick_interval": "%dms" % ival, "control_events": ce,
+             "restart_on_complete": roc}
+        if end is not None:
+            t["end_value"] = end
+        if mx is not None:
+            t["max_value"] = mx
+        timers[name] = t
+    return timers
+
+
+def _init_timer_rig():
+    import logging
+    logging.disable(logging.CRITICAL)
+    from rig import Rig
+    if "rig" not in _TRIG:
+        mode = {"mode": {"start_events": "start_m1", "stop_events": "stop_m1", "game_mode": False},
+                "timers": _timer_config()}
+        mode2 = {"mode": {"start_events": "start_m2", "stop_events": "stop_m2", "game_mode": False}}
+        rig = Rig({"modes": ["m1", "m2"]}, modes={"m1": mode, "m2": mode2}).start()
+        _TRIG["rig"] = rig
+        # which code is this?  behavioural probe of the recorded defect `timer-pause-not-superseded`
+        # (fixes/C13-timer-pause-supersedes.patch): does pause() leave a pending timed pause in place?
+        rig.post("start_m1")
+        rig.advance(0.125)
+        t = rig.machine.timers["t0"]
+        rig.post("t0_pause1000")
+        rig.post("t0_pause")
+        _TRIG["legacy"] = "pause" in t.delay.delays
+        rig.post("stop_m1")
+        rig.advance(2)
+
+
+def gen_timer(rng, tier, i):
+    ti = rng.randrange(len(TIMERS))
+    n = rng.choice([2, 3, 4, 5, 6, 8, 10])
+    t = 0
+    ops = []
+    halves = 0
+    names = [a[0] for a in T_ACTIONS]
+    weights = {"start": 6, "stop": 2, "pause": 4, "pause500": 4, "pause1000": 3, "pause250": 2, "restart": 2, "reset": 2}
+    pool = []
+    for a in names:
+        pool += [a] * weights.get(a, 1)
+    if rng.random() < 0.8:
+        ops.append([0, "start"])
+    for _ in range(n):
+        t += rng.choice([0, 125, 125, 250, 250, 375, 500, 500, 625, 1000, 1500]) * 1000
+        a = rng.choice(pool)
+        if a == "half":
+            if halves >= 2:
+                a = "double"
+            else:
+                halves += 1
+        ops.append([t, a])
+    end = t + rng.choice([0, 500, 1000, 2000, 4000]) * 1000
+    return {"timer": ti, "ops": ops, "end": end}
+
+
+def run_timer(case):
+    rig = _TRIG["rig"]
+    m = rig.machine
+    loop = m.clock.loop
+    name = TIMERS[case["timer"]][0]
+    timer = m.timers[name]
+    S = _Run()
+    S.events, S.steps, S.busy, S.stepno = [], [], False, 0
+    t0box = [None]
+
+    def now():
+        return int(round((loop.time() - t0box[0]) * 1e6))
+
+    orig_tick = type(timer)._timer_tick.__get__(timer)
+    orig_start = type(timer).start.__get__(timer)
+
+    def tick_w():
+        S.stepno += 1
+        S.steps.append(["firetick", now()])
+        S.busy = True
+        try:
+            return orig_tick()
+        finally:
+            S.busy = False
+
+    def start_w(**kwargs):
+        if S.busy or "_ext" in kwargs or t0box[0] is None:
+            return orig_start(**kwargs)
+        S.stepno += 1
+        S.steps.append(["firepause", now()])
+        S.busy = True
+        try:
+            return orig_start(**kwargs)
+        finally:
+            S.busy = False
+
+    timer._timer_tick = tick_w
+    timer.start = start_w
+    keys = []
+
+    def mk(kind):
+        def h(**kwargs):
+            if t0box[0] is None:
+                return
+            e = [kind, now(), kwargs.get("ticks"), S.stepno]
+            if kind == "tick":
+                e.append(bool(timer.running))
+            S.events.append(e)
+        return h
+
+    for kind in T_KINDS:
+        keys.append(m.events.add_handler("timer_%s_%s" % (name, kind), mk(kind)))
+    try:
+        rig.post("start_m1")
+        rig.advance(0.125)
+        if not m.modes["m1"].active:
+            return {"harness_error": "mode did not start"}
+        t0box[0] = _align(rig, loop)
+        for t, a in case["ops"] + [[case["end"], "nop"]]:
+            d = t0box[0] + t / 1e6 - loop.time()
+            rig.advance(d if d > 0 else 0)
+            S.stepno += 1
+            S.steps.append(["ext", t, a, now()])
+            if a != "nop":
+                m.events.post("%s_%s" % (name, a), _ext=1)
+                S.busy = True
+                try:
+                    rig.advance(0)
+                finally:
+                    S.busy = False
+            S.events.append(["state", t, bool(timer.running), timer.ticks, "pause" in timer.delay.delays,
+                             timer.timer is not None, S.stepno])
+    finally:
+        t0box[0] = None
+        for k in keys:
+            m.events.remove_handler_by_key(k)
+        rig.post("stop_m1")
+        rig.advance(0.125)
+        del timer._timer_tick
+        del timer.start
+    out = {"events": S.events, "steps": S.steps, "legacy": bool(_TRIG["legacy"])}
+    if rig.exception():
+        out["exc"] = repr(rig.exception())[:300]
+    return out
+
+
+def _tcfg(ti, legacy=False):
+    name, start, end, mx, direction, ival, roc = TIMERS[ti]
+    down = direction == "down"
+    if down and not end:
+        end = 0
+    return "(mkC %s %s %s %s %s %s %s)" % (zlit(start), "None" if end is None else "(Some %s)" % zlit(end), zlit(mx or 0),
+                                           blit(down), zlit(ival * 1000), blit(roc), blit(legacy))
+
+
+def _caction(a):
+    kind = dict((x[0], (x[1], x[2])) for x in T_ACTIONS).get(a)
+    if a == "nop":
+        return "ANop"
+    action, v = kind
+    if action == "start":
+        return "AStart"
+    if action == "stop":
+        return "AStop"
+    if action == "reset":
+        return "AReset"
+    if action == "restart":
+        return "ARestart"
+    if action == "pause":
+        return "(APause %s)" % zlit(int((v or 0) * 1000))
+    if action == "add":
+        return "(AAdd %s)" % zlit(v)
+    if action == "subtract":
+        return "(ASub %s)" % zlit(v)
+    if action == "jump":
+        return "(AJump %s)" % zlit(v)
+    if action == "change_tick_interval":
+        return "(AChange 1 2)" if v == 0.5 else "(AChange 2 1)"
+    if action == "set_tick_interval":
+        return "(ASetIval %s)" % zlit(int(v * 1000000))
+    return "AResetIval"
+
+
+_TEV = {"started": "TStarted", "stopped": "TStopped", "paused": "TPaused", "complete": "TComplete",
+        "time_added": "TAdded", "time_subtracted": "TSubtracted"}
+
+
+def coq_timer(case, out):
+    if "exc" in out:
+        return None
+    steps = coqlist("(TExt %s %s)" % (zlit(s[1]), _caction(s[2])) if s[0] == "ext" else
+                    ("TFireTick" if s[0] == "firetick" else "TFirePause") for s in out["steps"])
+    evs = []
+    for e in out["events"]:
+        if e[0] == "tick":
+            evs.append("(TTick %s %s %s)" % (zlit(e[1]), zlit(e[2]), blit(e[4])))
+        elif e[0] == "state":
+            evs.append("(TState %s %s %s %s %s)" % (zlit(e[1]), blit(e[2]), zlit(e[3]), blit(e[4]), blit(e[5])))
+        else:
+            evs.append("(%s %s %s)" % (_TEV[e[0]], zlit(e[1]), zlit(e[2])))
+    return "((%s, %s), %s)" % (_tcfg(case["timer"], out.get("legacy", False)), steps, coqlist(evs))
+
+
+def oracle_timer(case, out):
+    fails = []
+
+    def fail(sig, what):
+        if not any(f["sig"] == sig for f in fails):
+            fails.append({"sig": sig, "what": what})
+
+    if "exc" in out:
+        fail("timer-exception", out["exc"])
+    name, start, end, mx, direction, ival_ms, roc = TIMERS[case["timer"]]
+    down = direction == "down"
+    if down and not end:
+        end = 0
+
+    def done(k):
+        return end is not None and (k <= end if down else k >= end)
+
+    acts = dict((x[0], (x[1], x[2])) for x in T_ACTIONS)
+    by_step = {}
+    for e in out["events"]:
+        by_step.setdefault(e[-1] if e[0] == "state" else e[3], []).append(e)
+    running = False          # per the timer's own started/stopped/paused events
+    resume_at = None         # expiry of the pending timed pause, per the commands
+    ival = ival_ms * 1000
+    next_tick = None         # instant of the next tick of the current system timer, per the commands
+    timed = []               # timed pauses whose delay may still be pending
+    for no, s in enumerate(out["steps"], 1):
+        evs = by_step.get(no, [])
+        if s[0] == "ext":
+            if s[1] != s[3]:
+                fail("clock", "virtual clock at %d, wanted %d" % (s[3], s[1]))
+            t, a = s[1], s[2]
+            action, v = acts.get(a, ("nop", None))
+            if resume_at is not None and resume_at < t:
+                fail("timer-pause-not-ended", "timed pause due at %d did not restart the timer by %d" % (resume_at, t))
+            if running and next_tick is not None and next_tick < t:
+                fail("timer-missed-tick", "running timer: tick due at %d missing at %d" % (next_tick, t))
+            if action == "change_tick_interval":
+                ival = int(ival * v)
+            elif action == "set_tick_interval":
+                ival = int(v * 1000000)
+            elif action == "reset_tick_interval":
+                ival = ival_ms * 1000
+            if action in ("jump", "reset", "restart", "change_tick_interval", "set_tick_interval", "reset_tick_interval"):
+                next_tick = t + ival
+            if action == "pause":
+                resume_at = t + int(v * 1000000) if v else None
+                if v:
+                    timed.append([t + int(v * 1000000), True])     # [expiry, only pause commands since]
+            elif action in ("start", "stop", "restart"):
+                resume_at = None
+        elif s[0] == "firetick":
+            t = s[1]
+            if any(e[0] == "tick" for e in evs) or any(e[0] in ("complete",) for e in evs):
+                if not running:
+                    fail("tick-while-not-running", "the timer counted at %d while stopped/paused" % t)
+                if next_tick is not None and t != next_tick:
+                    fail("timer-tick-instant", "tick at %d, due at %s" % (t, next_tick))
+            if running:
+                next_tick = t + ival
+        elif s[0] == "firepause":
+            t = s[1]
+            if resume_at != t:
+                # the recorded defect: pause() does not remove the delay of an earlier timed pause.  It is exactly that
+                # when the expiring delay stems from a timed pause after which the timer never started or stopped.
+                stale = [x for x in timed if x[0] == t]
+                if out.get("legacy") and stale and stale[-1][1]:
+                    fail("timer-pause-not-superseded", "pause at %s did not cancel the pending timed pause: start() ran at %d"
+                         % ("(no end)" if resume_at is None else resume_at, t))
+                else:
+                    fail("timer-resumed-while-paused", "a stale pause delay called start() at %d; the commanded pause "
+                         "%s" % (t, "has no end" if resume_at is None else "ends at %d" % resume_at))
+            timed[:] = [x for x in timed if x[0] != t]
+            resume_at = None
+        for e in evs:
+            k = e[0]
+            if k in ("started", "stopped") and s[0] != "firepause":
+                for x in timed:
+                    x[1] = False          # start()/stop() ran: they must have removed the delay
+            if k == "started":
+                running = True
+                next_tick = e[1] + ival
+                resume_at = None
+            elif k in ("stopped", "paused"):
+                running = False
+                if k == "stopped":
+                    resume_at = None
+            elif k == "complete":
+                if not done(e[2]):
+                    fail("complete-not-at-end", "complete event with ticks=%s, end=%s" % (e[2], end))
+            elif k == "tick":
+                if not e[4]:
+                    fail("tick-not-running", "tick event while timer.running is False")
+                if done(e[2]):
+                    fail("tick-past-end", "tick event with ticks=%s at/after the end value %s" % (e[2], end))
+            elif k == "state":
+                if e[2] and done(e[3]):
+                    fail("running-past-end", "timer running with ticks=%s, end=%s and no complete" % (e[3], end))
+                if e[2] != running:
+                    fail("timer-state", "timer.running=%s but its last event says %s" % (e[2], running))
+    return fails
+
+
+def shrink_timer(case):
+    ops = case["ops"]
+    for i in range(len(ops)):
+        yield dict(case, ops=ops[:i] + ops[i + 1:])
+    if case["end"] > (ops[-1][0] if ops else 0):
+        yield dict(case, end=(ops[-1][0] if ops else 0))
+
+
+def nontrivial_timer(case, out):
+    evs = out.get("events", [])
+    return any(e[0] == "tick" for e in evs) and len(case["ops"]) >= 3
+
+
+SUITES.append(Suite("timer", gen_timer, run_timer,
+                    "From C13 Require Import Timer.\nDefinition run := timer_run.\nDefinition out_eqb := timer_out_eqb.\n",
+                    coq_timer, oracle_timer, shrink_timer, nontrivial_timer, {"quick": 1500, "thorough": 40000},
+                    worker_init=_init_timer_rig, shard=300,
+                    describe=lambda c: TIMERS[c["timer"]][0] + (" pause" if any(o[1].startswith("pause") for o in c["ops"]) else "")))
+
+
+# ================================================================================================
+# mode-owned delays: Mode.delay through a real mode's stop (mode.py stop/_stopped/_mode_stopped_callback)
+def _dl(rng, k):
+    return [rng.choice([0, 0, 125, 125, 250, 500, 1000, 2000]) for _ in range(k)]
+
+
+def gen_modestop(rng, tier, i):
+    stop_at = rng.choice([0, 125, 250, 500, 1000]) * 1000
+    hold = rng.choice([0, 0, 0, 125, 250, 500]) * 1000
+    return {"pre": _dl(rng, rng.choice([0, 1, 2, 3])), "stop_at": stop_at,
+            "stopping": _dl(rng, rng.choice([0, 1, 1, 2])), "stopping_via": rng.choice(["mode", "machine"]),
+            "stopped": _dl(rng, rng.choice([0, 0, 1, 2])), "stopped_via": rng.choice(["mode", "machine"]),
+            "hold": hold, "window": _dl(rng, rng.choice([0, 1, 2])) if hold else [],
+            "restart": rng.random() < 0.4, "end": stop_at + hold + rng.choice([500, 1000, 2500]) * 1000}
+
+
+def run_modestop(case):
+    rig = _TRIG["rig"]
+    m = rig.machine
+    loop = m.clock.loop
+    mode = m.modes["m2"]
+    log = []
+    t0box = [None]
+    S = _Run()
+    S.n, S.queue, S.dead = 0, None, False
+
+    def now():
+        return int(round((loop.time() - t0box[0]) * 1e6))
+
+    def add(ms, phase):
+        u = S.n
+        S.n += 1
+
+        def cb(**kwargs):
+            if not S.dead:
+                log.append(["call", now(), u, phase])
+        mode.delay.add(ms, cb, None if u % 2 else "d%d" % u)
+        log.append(["add", now(), u, phase, ms])
+
+    def on_stopping(queue=None, **kwargs):
+        log.append(["stopping", now()])
+        for ms in case["stopping"]:
+            add(ms, "stopping")
+        if case["hold"] and queue is not None:
+            queue.wait()
+            S.queue = queue
+
+    def on_stopped(**kwargs):
+        log.append(["stopped-event", now()])
+        for ms in case["stopped"]:
+            add(ms, "stopped")
+
+    keys = []
+    try:
+        rig.post("start_m2")
+        rig.advance(0.125)
+        if not mode.active:
+            return {"harness_error": "mode did not start"}
+        t0box[0] = _align(rig, loop)
+        for ev, via, h in (("mode_m2_stopping", case["stopping_via"], on_stopping),
+                           ("mode_m2_stopped", case["stopped_via"], on_stopped)):
+            if via == "mode":
+                mode.add_mode_event_handler(ev, h)
+            else:
+                keys.append(m.events.add_handler(ev, h))
+        for ms in case["pre"]:
+            add(ms, "pre")
+        rig.advance(case["stop_at"] / 1e6)
+        log.append(["stop", now()])
+        rig.post("stop_m2")
+        if case["hold"]:
+            rig.advance(case["hold"] / 1e6)
+            for ms in case["window"]:
+                add(ms, "window")
+            if S.queue is not None:
+                S.queue.clear()
+            rig.advance(0)
+        fin = (not mode.active) and (not mode._cleanup_pending) and (not mode.stopping)
+        log.append(["finished", now(), fin, sorted(str(k)[:3] for k in mode.delay.delays.keys())])
+        if case["restart"]:
+            rig.advance(0.125)
+            rig.post("start_m2")
+            log.append(["restarted", now(), bool(mode.active)])
+        d = t0box[0] + case["end"] / 1e6 - loop.time()
+        rig.advance(d if d > 0 else 0)
+        log.append(["end", now(), len(mode.delay.delays)])
+    finally:
+        S.dead = True
+        for k in keys:
+            m.events.remove_handler_by_key(k)
+        mode.delay.clear()
+        if mode.active:
+            rig.post("stop_m2")
+            rig.advance(0.125)
+    out = {"log": log}
+    if rig.exception():
+        out["exc"] = repr(rig.exception())[:300]
+    return out
+
+
+def oracle_modestop(case, out):
+    fails = []
+
+    def fail(sig, what):
+        if not any(f["sig"] == sig for f in fails):
+            fails.append({"sig": sig, "what": what})
+
+    if "exc" in out:
+        fail("mode-exception", out["exc"])
+    stop_t = None
+    finished = False
+    added = {}
+    for e in out["log"]:
+        if e[0] == "add":
+            added[e[2]] = e
+        elif e[0] == "stop":
+            stop_t = e[1]
+            for u, a in added.items():
+                pass
+        elif e[0] == "finished":
+            finished = True
+            if not e[2]:
+                fail("mode-not-stopped", "the mode did not finish stopping")
+            if e[3]:
+                fail("mode-delay-left-behind", "mode.delay still holds %r after the mode has stopped" % (e[3],))
+        elif e[0] == "call":
+            _, t, u, phase = e
+            if finished:
+                fail("mode-delay-survived-stop", "a delay added to mode.delay (%s) fired at %d, after the mode had stopped" % (phase, t))
+            elif stop_t is not None and phase == "pre":
+                fail("mode-delay-fired-while-stopping", "a delay added before stop() fired at %d, after stop() at %d" % (t, stop_t))
+        elif e[0] == "end":
+            if e[2]:
+                fail("mode-delay-left-behind", "mode.delay holds %d entries at the end" % e[2])
+    # delays due strictly before the stop request must have fired
+    calls = set(e[2] for e in out["log"] if e[0] == "call")
+    for u, a in added.items():
+        if a[3] == "pre" and stop_t is not None and a[1] + a[4] * 1000 < stop_t and u not in calls:
+            fail("mode-delay-missed", "delay due at %d before stop at %d did not fire" % (a[1] + a[4] * 1000, stop_t))
+    return fails
+
+
+def shrink_modestop(case):
+    for k in ("pre", "stopping", "stopped", "window"):
+        for i in range(len(case[k])):
+            yield dict(case, **{k: case[k][:i] + case[k][i + 1:]})
+    if case["restart"]:
+        yield dict(case, restart=False)
+    if case["hold"]:
+        yield dict(case, hold=0, window=[])
+
+
+SUITES.append(Suite("modestop", gen_modestop, run_modestop, None, None, oracle_modestop, shrink_modestop,
+                    lambda c, o: bool(c["pre"] or c["stopping"] or c["stopped"] or c["window"]),
+                    {"quick": 600, "thorough": 10000}, worker_init=_init_timer_rig,
+                    describe=lambda c: ("hold " if c["hold"] else "") + ("stopping " if c["stopping"] else "") +
+                    ("stopped " if c["stopped"] else "") + ("restart" if c["restart"] else "")))
